@@ -242,9 +242,14 @@ def py_pads(case):
 
 
 def max_possible(case):
+    """(key, float32 distance) between the first and the last cell; the key only for integer coordinates"""
     xs, ys = case['xs'], case['ys']
-    k = c06.key_of(case['metric'], int(xs[0] - xs[-1]), int(ys[0] - ys[-1]))
-    return k, c06.dist32_of_key(case['metric'], k)
+    dx, dy = float(xs[0]) - float(xs[-1]), float(ys[0]) - float(ys[-1])
+    if dx == int(dx) and dy == int(dy):
+        k = c06.key_of(case['metric'], int(dx), int(dy))
+        return k, c06.dist32_of_key(case['metric'], k)
+    d = abs(dx) + abs(dy) if case['metric'] == 'MANHATTAN' else math.sqrt(dx * dx + dy * dy)
+    return None, c06.f32(d)
 
 
 def is_fallback(case):
@@ -461,6 +466,9 @@ def check_cases(ctx, cases, pool, use_model=True):
             continue
         gn, en = c06.canon_impl(rn)
         gd, ed = c06.canon_impl(rd)
+        for which, e in (('NumPy', en), ('Dask', ed)):
+            if any(k.endswith('/mutated') for k in e):
+                ctx.violation('oracle', 'the %s call changed the caller\'s raster: %r' % (which, e), dict(case, backend=which))
         bad = False
         for name in case['only']:
             if name not in gn:
@@ -663,16 +671,17 @@ def pair_cases(ctx):
 
 def check_pairs(ctx, pairs, pool):
     reqs = []
-    for a, b, chunks, name in pairs:
+    pairs = [tuple(p) + ('together',) if len(p) == 4 else tuple(p) for p in pairs]
+    for a, b, chunks, name, mode in pairs:
         reqs.append({'op': 'numpy3', 'case': a, 'only': [name]})
         reqs.append({'op': 'numpy3', 'case': b, 'only': [name]})
-        reqs.append({'op': 'dask_pair', 'case': a, 'case_b': b, 'chunks': chunks, 'name': name})
+        reqs.append({'op': 'dask_pair', 'case': a, 'case_b': b, 'chunks': chunks, 'name': name, 'mode': mode})
     res = pool.map(reqs)
-    for i, (a, b, chunks, name) in enumerate(pairs):
+    for i, (a, b, chunks, name, mode) in enumerate(pairs):
         ra, rb, rp = res[3 * i: 3 * i + 3]
-        rep = dict(a, chunks=chunks, function=name, second_raster=dict(xs=b['xs'], ys=b['ys']))
+        rep = dict(a, chunks=chunks, function=name, second_raster=dict(xs=b['xs'], ys=b['ys']), pair_mode=mode)
         ctx.case(rep)
-        ctx.count('pair-computed-together/%s' % name)
+        ctx.count('pair-%s/%s' % (mode, name))
         if 'fatal' in rp or 'pair' not in rp:
             ctx.violation('oracle', 'dask.compute(a, b) of two lazy %s results failed: %s' % (name, rp.get('fatal')), rep)
             continue
@@ -686,6 +695,53 @@ def check_pairs(ctx, pairs, pool):
                               '(%d,%d): numpy %r, dask %r' % (name, which, r, c, p, q),
                               dict(rep, which=which, cell=[r, c], numpy=p, dask=q))
                 break
+
+
+def theme_cases(ctx):
+    """appended stream (theme audit): memory layout of the array handed to dask, fractional cell sizes (oracle only),
+    float32 / int32 coordinates, degenerate rasters (all NaN, 2x2 in 1-cell chunks), exact ids beyond 2**53"""
+    rng = ctx.rng
+    out = []
+    for i, mem in enumerate(['F', 'strided']):
+        h, w = rng.randint(5, 8), rng.randint(5, 8)
+        g = c06.gen_layout(rng, h, w, 'multi')
+        out.append(dict(fn='dask', layout='mem-' + mem, metric='EUCLIDEAN', data=[[float(v) for v in row] for row in g],
+                        dtype=['float64', 'int16'][i], mem=mem, cmem=['reversed', 'strided'][i], xs=list(range(w)),
+                        ys=list(range(h)), cdtype=['float64', 'float32'][i], ykind='asc', xkind='asc', tv=[], mode='default',
+                        max_distance=rng.choice([1.5, 2.0]), scheduler='threads', only=['proximity'],
+                        chunks=[compositions_random(rng, h, 'small'), compositions_random(rng, w, 'small')]))
+    # fractional cell sizes: the halo comes from max_distance / cellsize with non-integer quotients
+    for i in range(2):
+        h, w = rng.randint(5, 8), rng.randint(5, 8)
+        cx, cy = rng.choice([(0.25, 0.5), (2.5, 0.5), (0.1, 0.3), (1.5, 0.75)])
+        g = c06.gen_layout(rng, h, w, 'multi')
+        xs = [10.0 + cx * j for j in range(w)]
+        ys = [-3.0 + cy * j for j in range(h)]
+        if i:
+            ys = ys[::-1]
+        c = dict(fn='dask', layout='fractional-cells', metric=['EUCLIDEAN', 'MANHATTAN'][i],
+                 data=[[float(v) for v in row] for row in g], dtype='float64', xs=xs, ys=ys, cdtype='float64',
+                 ykind='frac', xkind='frac', tv=[], mode='default', max_distance=rng.choice([1.0, 2.0, 2.5]) * max(cx, cy),
+                 scheduler='threads', only=[['allocation'], ['direction']][i], no_model=True,
+                 chunks=[compositions_random(rng, h, 'small'), compositions_random(rng, w, 'small')])
+        if not in_domain(c):                      # halo larger than the raster: the documented Dask limitation
+            c['max_distance'] = 1.5 * min(cx, cy)
+        out.append(c)
+    nan = float('nan')
+    out.append(dict(fn='dask', layout='all-nan', metric='EUCLIDEAN', data=[[nan] * 4 for _ in range(3)], dtype='float32',
+                    xs=[0, 1, 2, 3], ys=[0, 1, 2], cdtype='float64', ykind='asc', xkind='asc', tv=[], mode='default',
+                    max_distance=1.0, scheduler='threads', only=['proximity'], chunks=[[1, 2], [2, 2]]))
+    out.append(dict(fn='dask', layout='2x2-one-cell-chunks', metric='EUCLIDEAN', data=[[0.0, 3.0], [0.0, 0.0]], dtype='float64',
+                    xs=[5, 6], ys=[1, 0], cdtype='int32', ykind='desc', xkind='asc', tv=[], mode='default',
+                    max_distance=1.0, scheduler='synchronous', only=['direction'], chunks=[[1, 1], [1, 1]]))
+    h, w = 3, 4
+    big = [[2 ** 53] * w for _ in range(h)]
+    big[rng.randrange(h)][rng.randrange(w)] = 2 ** 53 + 1
+    out.append(dict(fn='dask', layout='ids-beyond-2**53', metric='EUCLIDEAN', data=[[0.0] * w] * h, data_int=big, dtype='int64',
+                    xs=list(range(w)), ys=list(range(h)), cdtype='float64', ykind='asc', xkind='asc', tv=[2 ** 53 + 1],
+                    tv_exact=True, mode='target_values', max_distance=1.0, scheduler='threads', only=['proximity'],
+                    chunks=[[2, 1], [2, 2]]))
+    return out
 
 
 KEY_SINGLE = 'dask-single-row-or-column-zero-division'
@@ -755,6 +811,10 @@ def run(ctx):
         check_pairs(ctx, pair_cases(ctx), pool)
         check_derived(ctx, derived_cases(ctx), pool)
         check_edges(ctx, edge_cases(ctx), pool)
+        # appended last: earlier draws stay as they were
+        tc = theme_cases(ctx)
+        check_cases(ctx, tc, pool)
+        check_pairs(ctx, [p + ('reverse',) for p in pair_cases(ctx)[:1]], pool)
     finally:
         pool.close()
     ctx.exhaustive = False
@@ -792,7 +852,7 @@ def replay_case(ctx, case):
             out = []
             for r in reqs:
                 if r['op'] == 'dask_pair':
-                    out.append(c06._call_pair(r['case'], r['case_b'], r['chunks'], r['name']))
+                    out.append(c06._call_pair(r['case'], r['case_b'], r['chunks'], r['name'], r.get('mode', 'together')))
                 else:
                     out.append(c06._call3(r['case'], r.get('chunks') if r['op'] == 'dask3' else None, r.get('only')))
             return out
@@ -810,12 +870,13 @@ def replay_case(ctx, case):
         return
     if keep.get('fn') == 'dask-pair':
         sec = keep.pop('second_raster')
+        pmode = keep.pop('pair_mode', 'together')
         which = keep.pop('which', None)
         name = keep.get('function', 'proximity')
         chunks = keep['chunks']
         a = {k: v for k, v in keep.items() if k not in ('chunks', 'only')}
         b = dict(a, xs=sec['xs'], ys=sec['ys'])
-        check_pairs(ctx, [(a, b, chunks, name)], Direct())
+        check_pairs(ctx, [(a, b, chunks, name, pmode)], Direct())
     elif keep.get('layout') == 'single-line':
         check_edges(ctx, [keep], Direct())
     else:
